@@ -11,6 +11,7 @@
 #include <tuple_sketch.hpp>
 #include <tuple_union.hpp>
 #include <tuple_intersection.hpp>
+#include <tuple_a_not_b.hpp>
 #include <algorithm>
 
 namespace vf19 {
@@ -359,13 +360,23 @@ template <typename Op> void tuple_op_feed(Op& op, PA a, uint64_t seed, unsigned 
   typename TuUpdate::builder b(ProbePolicy(), a);
   TuUpdate u = [&] { LibScope ls; return b.set_lg_k(static_cast<uint8_t>(5 + (seed >> 4 & 1))).build(); }();
   tuple_feed(u, seed, n);
-  LibScope ls;
-  switch (seed & 3) {
-    case 0: op.update(u); break;
-    case 1: { TuCompact c = u.compact(true); op.update(c); break; }
-    case 2: op.update(u.compact(true)); break;
-    default: op.update(u.compact(false));
+  // an operand passed as a (non-const) lvalue is an input: it observes the same before and after
+  std::ostringstream before, after;
+  if ((seed & 3) == 0) tuple_show(u, before);
+  TuCompact c = [&] { LibScope ls; return u.compact(true); }();
+  if ((seed & 3) == 1) tuple_show(c, before);
+  {
+    LibScope ls;
+    switch (seed & 3) {
+      case 0: op.update(u); break;
+      case 1: op.update(c); break;
+      case 2: op.update(u.compact(true)); break;
+      default: op.update(u.compact(false));
+    }
   }
+  if ((seed & 3) == 0) tuple_show(u, after);
+  if ((seed & 3) == 1) tuple_show(c, after);
+  if (before.str() != after.str()) alloc_error("operand-modified", "tuple set operation: an operand passed as an lvalue observes something else after update()");
 }
 
 struct TupleUnionFamily {
@@ -411,6 +422,44 @@ struct TupleIntersectionFamily {
   }
   static void canon(const Obj&, std::ostream&) {}
   static void query(Env&, const Obj& x, uint64_t) { if (x.has_result()) { LibScope ls; auto r = x.get_result(false); (void)r.get_estimate(); } }
+};
+
+// tuple A-not-B and the operands of the stateful tuple operators: an operand passed as a (non-const) lvalue is an input - it must
+// observe exactly what it observed before the operation (the Probe summaries detect being read after a move)
+using TuANotB = datasketches::tuple_a_not_b<Probe, PA>;
+struct TupleANotBFamily {
+  using Obj = TuANotB;
+  static const char* name() { return "tuple-a-not-b"; }
+  static Obj* make(Env& e, uint64_t, int reg) { return construct<Obj>([&](void* m) { return new (m) Obj(datasketches::DEFAULT_SEED, e.alloc<Probe>(reg)); }); }
+  static void update(Env&, Obj&, uint64_t, unsigned) {}   // stateless operator
+  static bool merge_ref(Env&, Obj&, const Obj&) { return false; }
+  static bool merge_move(Env&, Obj&, Obj&&) { return false; }
+  static bool reset(Obj&) { return false; }
+  static Obj* serde(Env&, const Obj&, uint64_t, int) { return nullptr; }
+  static void run(const Obj& x, std::ostream& os, uint64_t seed) {
+    AllocRegistry scratch(7);
+    all_registries().push_back(&scratch);
+    {
+      PA a(scratch);
+      typename TuUpdate::builder b(ProbePolicy(), a);
+      TuUpdate ua = b.set_lg_k(5).build(), ub = b.set_lg_k(5).build();
+      tuple_feed(ua, 1 + seed, 90); tuple_feed(ub, 8 + seed, 40);
+      TuCompact ca = ua.compact(false), cb = ub.compact(true);
+      std::ostringstream before, after;
+      tuple_show(ua, before); tuple_show(ca, before);
+      auto r1 = [&] { LibScope ls; return x.compute(ua, ub, true); }();          // non-const lvalue operands, hash-based path
+      auto r2 = [&] { LibScope ls; return x.compute(ca, cb, false); }();         // non-const lvalue compact operands
+      tuple_show(ua, after); tuple_show(ca, after);
+      if (before.str() != after.str()) alloc_error("operand-modified", "tuple a-not-b: an operand passed as an lvalue observes something else after compute()");
+      auto r3 = [&] { LibScope ls; return x.compute(ua.compact(false), ub.compact(true), false); }();   // rvalue a
+      tuple_show(r1, os); tuple_show(r2, os); tuple_show(r3, os);
+    }
+    all_registries().pop_back();
+    if (!scratch.live.empty()) alloc_error("alloc-leak", "tuple a-not-b inputs: blocks left in the scratch allocator instance");
+  }
+  static void observe(const Obj& x, std::ostream& os) { run(x, os, 0); }
+  static void canon(const Obj&, std::ostream&) {}
+  static void query(Env&, const Obj& x, uint64_t seed) { std::ostringstream os; run(x, os, seed & 0xff); }
 };
 
 }  // namespace vf19
